@@ -3,7 +3,7 @@ PROP = {'engine': 'stack',
  'test': 'TestC07',
  'level': 'exploration',
  'quick': {'checks': 220, 'shards': 14, 'timeout': 1500},
- 'thorough': {'checks': 3000, 'shards': 14, 'timeout': 3400},
+ 'thorough': {'checks': 3000, 'shards': 14, 'timeout': 3400, 'race': True, 'race_frac': 0.1},
  'rule': 'rapid draws, for 1-3 consecutive faulty generations, free-running scripts of the runtime (<=10 steps) and of 0-2 extensions (<=8 steps) '
          'over the whole Runtime/Extensions API alphabet including misuse: wrong-role calls, stale/garbage ids, duplicate parallel next, refused '
          'registrations, unknown routes and wrong methods, oversize bodies, init/exit error reports, sleeps, exits, crashes, stalls, TERM-ignoring '
